@@ -81,6 +81,12 @@ CFG = {
         "Swat4.C08.C08_players_sorted",
         "Swat4.C08.C08_players_perm",
         "Swat4.C08.C08_players_listing",
+        # the helpers toResponse/mkMap share with the model (GS1.latin1, GS1.insertKV), characterised on their own
+        "Swat4.C08.latin1_spec",
+        "Swat4.C08.latin1_bytes",
+        "Swat4.C08.latin1_codePoint",
+        "Swat4.C08.insertKV_lookup",
+        "Swat4.C08.mkMap_mem",
     ],
     "shards": (8, 16),
     "nontrivial": _c08_nontrivial,
